@@ -148,6 +148,12 @@ public:
 private:
 	void _ensure_capacity(size_t capacity);
 
+	// Moves the elements to new storage for at least the given capacity. construct_new(array)
+	// is called to construct further elements in the new storage while the old storage is still
+	// intact, so that its arguments may refer to elements of this vector (v.push(v[0])).
+	template<typename F>
+	void _reallocate(size_t capacity, F construct_new);
+
 	Allocator _allocator;
 	T *_elements;
 	size_t _size;
@@ -167,25 +173,26 @@ vector<T, Allocator>::~vector() {
 
 template<typename T, typename Allocator>
 T &vector<T, Allocator>::push(const T &element) {
-	_ensure_capacity(_size + 1);
-	T *pointer = new (&_elements[_size]) T(element);
-	_size++;
-	return *pointer;
+	return emplace_back(element);
 }
 
 template<typename T, typename Allocator>
 T &vector<T, Allocator>::push(T &&element) {
-	_ensure_capacity(_size + 1);
-	T *pointer = new (&_elements[_size]) T(std::move(element));
-	_size++;
-	return *pointer;
+	return emplace_back(std::move(element));
 }
 
 template<typename T, typename Allocator>
 template<typename... Args>
 T &vector<T, Allocator>::emplace_back(Args &&... args) {
-	_ensure_capacity(_size + 1);
-	T *pointer = new(&_elements[_size]) T(std::forward<Args>(args)...);
+	T *pointer;
+	if(_size < _capacity) {
+		pointer = new(&_elements[_size]) T(std::forward<Args>(args)...);
+	}else{
+		// The arguments may refer to elements of this vector.
+		_reallocate(_size + 1, [&] (T *new_array) {
+			pointer = new(&new_array[_size]) T(std::forward<Args>(args)...);
+		});
+	}
 	_size++;
 	return *pointer;
 }
@@ -193,14 +200,19 @@ T &vector<T, Allocator>::emplace_back(Args &&... args) {
 template<typename T, typename Allocator>
 template<typename... Args>
 void vector<T, Allocator>::resize(size_t new_size, Args &&... args) {
-	_ensure_capacity(new_size);
 	if(new_size < _size) {
 		for(size_t i = new_size; i < _size; i++)
 			_elements[i].~T();
-	}else{
+	}else if(new_size <= _capacity) {
 		// The arguments initialize several elements: they must not be forwarded (moved from).
 		for(size_t i = _size; i < new_size; i++)
 			new (&_elements[i]) T(args...);
+	}else{
+		// The arguments may refer to elements of this vector.
+		_reallocate(new_size, [&] (T *new_array) {
+			for(size_t i = _size; i < new_size; i++)
+				new (&new_array[i]) T(args...);
+		});
 	}
 	_size = new_size;
 }
@@ -209,9 +221,15 @@ template<typename T, typename Allocator>
 void vector<T, Allocator>::_ensure_capacity(size_t capacity) {
 	if(capacity <= _capacity)
 		return;
+	_reallocate(capacity, [] (T *) { });
+}
 
+template<typename T, typename Allocator>
+template<typename F>
+void vector<T, Allocator>::_reallocate(size_t capacity, F construct_new) {
 	size_t new_capacity = capacity * 2;
 	T *new_array = (T *)_allocator.allocate(sizeof(T) * new_capacity);
+	construct_new(new_array);
 	for(size_t i = 0; i < _size; i++)
 		new (&new_array[i]) T(std::move(_elements[i]));
 
